@@ -1083,3 +1083,57 @@ def _pkg_message_locals(srcs):
 
 VARIANTS.append(dict(id='PKG_S_flip_comparisons', props=ALL + ['C05'], file='*', expect=[], kind='silent', where='', pkg_all_fn=_pkg_flip_comparisons))
 VARIANTS.append(dict(id='PKG_S_message_locals', props=ALL + ['C05'], file='*', expect=[], kind='silent', where='', pkg_all_fn=_pkg_message_locals))
+
+
+# ---- package-wide: De Morgan on every compound if-test; `if a or b: raise X` split into two guards
+class _DeMorganIf(ast.NodeTransformer):
+    def visit_If(self, node):
+        self.generic_visit(node)
+        t = node.test
+        if isinstance(t, ast.BoolOp) and not any(isinstance(y, ast.NamedExpr) for y in ast.walk(t)):
+            inv = ast.BoolOp(op=ast.And() if isinstance(t.op, ast.Or) else ast.Or(), values=[ast.UnaryOp(op=ast.Not(), operand=v) for v in t.values])
+            node.test = ast.UnaryOp(op=ast.Not(), operand=inv)
+        return node
+
+
+def _pkg_demorgan(srcs):
+    out = {}
+    for fn, text in srcs.items():
+        if fn.endswith('luts.py'):
+            out[fn] = text
+            continue
+        t = _DeMorganIf().visit(ast.parse(text))
+        ast.fix_missing_locations(t)
+        out[fn] = ast.unparse(t) + '\n'
+    return out
+
+
+def _pkg_split_or_guards(srcs):
+    import copy as _copy
+    out, n = {}, 0
+    for fn, text in srcs.items():
+        if fn.endswith('luts.py'):
+            out[fn] = text
+            continue
+        t = ast.parse(text)
+        for node in ast.walk(t):
+            for fld in ('body', 'orelse', 'finalbody'):
+                lst = getattr(node, fld, None)
+                if isinstance(lst, list) and lst and isinstance(lst[0], ast.stmt):
+                    new = []
+                    for s in lst:
+                        if isinstance(s, ast.If) and not s.orelse and isinstance(s.test, ast.BoolOp) and isinstance(s.test.op, ast.Or) and len(s.body) == 1 \
+                                and isinstance(s.body[0], ast.Raise) and not any(isinstance(y, ast.NamedExpr) for y in ast.walk(s.test)):
+                            for v in s.test.values:
+                                new.append(ast.If(test=v, body=_copy.deepcopy(s.body), orelse=[]))
+                            n += 1
+                        else:
+                            new.append(s)
+                    setattr(node, fld, new)
+        ast.fix_missing_locations(t)
+        out[fn] = ast.unparse(t) + '\n'
+    return out if n else None
+
+
+VARIANTS.append(dict(id='PKG_S_demorgan', props=ALL + ['C05'], file='*', expect=[], kind='silent', where='', pkg_all_fn=_pkg_demorgan))
+VARIANTS.append(dict(id='PKG_S_split_or_guards', props=ALL + ['C05'], file='*', expect=[], kind='silent', where='', pkg_all_fn=_pkg_split_or_guards))
